@@ -56,6 +56,8 @@ type CondAPI struct {
 	// mod: when each object was last written (fake clock), for oracles that
 	// need "persisted before t".
 	mod map[string]time.Time
+	// writes: every applied create / main-resource update, in order
+	writes []WriteRec
 }
 
 // ModTime returns when the named object was last created or updated.
@@ -64,6 +66,30 @@ func (a *CondAPI) ModTime(name string) (time.Time, bool) {
 	defer a.mu.Unlock()
 	t, ok := a.mod[name]
 	return t, ok
+}
+
+// WriteRec is one applied spec write (create or main-resource update).
+type WriteRec struct {
+	Node string // the writing client's node ("" = the driver acting as a foreign writer)
+	Name string
+	Obj  *v1alpha1.RateLimitCondition // as stored
+}
+
+// Writes returns the log of applied spec writes from index from on.
+func (a *CondAPI) Writes(from int) []WriteRec {
+	a.mu.Lock()
+	defer a.mu.Unlock()
+	if from > len(a.writes) {
+		from = len(a.writes)
+	}
+	return append([]WriteRec(nil), a.writes[from:]...)
+}
+
+// NWrites is the current length of the write log.
+func (a *CondAPI) NWrites() int {
+	a.mu.Lock()
+	defer a.mu.Unlock()
+	return len(a.writes)
 }
 
 func (a *CondAPI) touched(name string) {
@@ -106,6 +132,7 @@ func (a *CondAPI) DirectPut(obj *v1alpha1.RateLimitCondition) {
 	st.ResourceVersion = a.nextRV()
 	a.objs[st.Name] = st
 	a.touched(st.Name)
+	a.writes = append(a.writes, WriteRec{Node: "", Name: st.Name, Obj: st.DeepCopy()})
 }
 
 func (a *CondAPI) nextRV() string {
@@ -177,6 +204,7 @@ func (c *CondClient) Create(ctx context.Context, obj *v1alpha1.RateLimitConditio
 	st.Generation = 1
 	a.objs[name] = st
 	a.touched(name)
+	a.writes = append(a.writes, WriteRec{Node: c.Node, Name: name, Obj: st.DeepCopy()})
 	ret := st.DeepCopy()
 	a.mu.Unlock()
 	if out := c.point("post", "create", name); out != Proceed {
@@ -215,6 +243,9 @@ func (c *CondClient) update(verb string, obj *v1alpha1.RateLimitCondition, statu
 	st.ResourceVersion = a.nextRV()
 	a.objs[name] = st
 	a.touched(name)
+	if !status {
+		a.writes = append(a.writes, WriteRec{Node: c.Node, Name: name, Obj: st.DeepCopy()})
+	}
 	ret := st.DeepCopy()
 	a.mu.Unlock()
 	if out := c.point("post", verb, name); out != Proceed {
